@@ -99,9 +99,15 @@ CHECKS["C19"] = dict(
          "checked by its Go transcription in every pubsub scenario and by the Lean automaton itself (driver engine PST) on the small scenarios' whole traces; sequential "
          "scenario covering every code path and automaton state, negative controls. "
          "Scenario pubsub-stall: one of five subscribers stops reading for 2.6 s (thorough: also 6.5 s, 11 s) while a message is published, then reads on: PUBLISH reports five, every "
-         "subscriber holds the message exactly once, the next message reaches all five.",
+         "subscriber holds the message exactly once, the next message reaches all five; last round: the slow subscriber closes instead (pruned, four counted). "
+         "Slow consumers in Lean: PSS (Conc/PubSubSlow.lean) gives every connection a state ready | stalled | dead; Send's write to a stalled connection is no step (the sender holds the channel lock). "
+         "PSS.healthy_not_affected (every member gets every message published on its channel object since it joined once, in order, whatever the environment does to the others), "
+         "PSS.removed_only_dead_or_unsubscribed, PSS.stall_only_delays (every stall ends + strongly fair scheduler => every invoked operation completes, reply = its deliveries), PSS.confirm_after_join; negative: "
+         "PSS.never_block_publishers_needs_fairness_partial (a subscriber that never reads again blocks its channel and, through Subscribe's table lock, all channels: true of the code), "
+         "PSS.confirm_before_join_misses. Tie: the history the pubsub-stall scenario observed (stall / resume / close, PUBLISH written / answered, holdings) is replayed on the model by the driver (engine PSH); "
+         "eight negative controls.",
     note="Partial: the cross-channel order of one connection's deliveries is not linearizable (refuted in Lean, a finding); the concurrency theorems are about the model "
-         "(Go scheduler, memory model, sync.RWMutex modelled; -race runs); TCP back-pressure is runtime behaviour outside the model. Trusted: Lean kernel, harness "
+         "(Go scheduler, memory model, sync.RWMutex modelled; -race runs); TCP back-pressure is modelled (PSS) and tied by the pubsub-stall histories only; 'never block publishers indefinitely' holds only if every subscriber that stops reading eventually reads again or closes (refuted otherwise, a finding). Trusted: Lean kernel, harness "
          "(incl. the Go-side automaton), driver, hook H2b.",
 )
 CHECKS["C20"] = dict(
